@@ -19,7 +19,11 @@ CONSTANT MaxSteps
 
 Leaf(p) == S(<<p>>)
 IRec(p) == Rec([Name |-> Leaf(p \o ".Name")])
-KRec(p) == RecM([Name |-> Leaf(p \o ".Name"),
+\* a K without further K-valued fields (the end of a chain of Sub pointers)
+KEnd(p) == RecM([Name |-> Leaf(p \o ".Name"), Tags |-> AT(<<Leaf(p \o ".Tags[0]"), Leaf(p \o ".Tags[1]")>>, "strs"),
+                 Inner |-> IRec(p \o ".Inner"), InnerPtr |-> IRec(p \o ".InnerPtr"), NilInner |-> Nil, Sub |-> Nil],
+                [Hello |-> Leaf(p \o ".Hello()"), Shout |-> Leaf(p \o ".Shout()")])
+KRec(p) == RecM([Name |-> Leaf(p \o ".Name"), Sub |-> KEnd(p \o ".Sub"),
                  Tags |-> AT(<<Leaf(p \o ".Tags[0]"), Leaf(p \o ".Tags[1]")>>, "strs"),
                  Inner |-> IRec(p \o ".Inner"), InnerPtr |-> IRec(p \o ".InnerPtr"), NilInner |-> Nil],
                 [Hello |-> Leaf(p \o ".Hello()"), Shout |-> Leaf(p \o ".Shout()")])
@@ -41,11 +45,25 @@ Data == [r |-> RRec("r"), rp |-> RRec("rp"),
 Roots == {"r", "rp", "rs", "rm"}
 
 Unexported == "secret"
-VARIABLES e, v, n      \* path expression, value reached ([t |-> "fail"] once navigation cannot be completed), steps
-vars == <<e, v, n>>
+VARIABLES e, v, n,     \* path expression, value reached ([t |-> "fail"] once navigation cannot be completed), steps
+          fam           \* "walk" | name of a revisit program (the same path evaluated again after its index variable changed)
+vars == <<e, v, n, fam>>
 Failed == [t |-> "fail"]
 
-Init == \E x \in Roots : e = Id(x) /\ v = Data[x] /\ n = 0
+\* paths whose index variable `j` is not the first index of the path, evaluated for j = 0 and j = 1
+RevisitPaths ==
+  [ kids    |-> Dot(Idx(Dot(Idx(Id("rs"), IntL(1)), "Kids"), Id("j")), "Name"),
+    tags    |-> Idx(Dot(Idx(Dot(Id("r"), "Kids"), IntL(0)), "Tags"), Id("j")),
+    both    |-> Dot(Idx(Dot(Idx(Id("rs"), Id("j")), "Kids"), Id("j")), "Name"),
+    mapkids |-> Dot(Idx(Dot(Idx(Id("rm"), Str(<<"a">>)), "Kids"), Id("j")), "Name"),
+    arr     |-> Dot(Dot(Idx(Dot(Id("rp"), "Arr"), Id("j")), "Inner"), "Name"),
+    call    |-> MCall(Idx(Dot(Idx(Id("rs"), IntL(0)), "Kids"), Id("j")), "Hello") ]
+RevisitProg(nm, how) ==
+  IF how = "loop" THEN <<Emit(For("", "j", Arr(<<IntL(0), IntL(1)>>), <<Text(<<"(">>), Emit(RevisitPaths[nm]), Text(<<")">>)>>))>>
+  ELSE <<Let("j", IntL(0)), Text(<<"(">>), Emit(RevisitPaths[nm]), Text(<<")">>), Code(Assign("j", IntL(1))), Text(<<"(">>), Emit(RevisitPaths[nm]), Text(<<")">>)>>
+
+Init == \/ \E x \in Roots : e = Id(x) /\ v = Data[x] /\ n = 0 /\ fam = "walk"
+        \/ \E nm \in DOMAIN RevisitPaths, how \in {"loop", "assign"} : e = RevisitPaths[nm] /\ v = Failed /\ n = 0 /\ fam = nm \o ":" \o how
 
 \* one more navigation step from a value
 FieldStep(f) == /\ e' = Dot(e, f)
@@ -58,6 +76,7 @@ CallStep(m) == /\ e' = MCall(e, m)
                /\ v' = IF v.t = "rec" /\ m \in DOMAIN v.m THEN v.m[m] ELSE Failed
 
 Extend ==
+  /\ fam = "walk" /\ UNCHANGED fam
   /\ n < MaxSteps /\ v # Failed /\ v.t \in {"rec", "arr", "map", "nil"}
   /\ n' = n + 1
   /\ \/ v.t = "rec" /\ \E f \in DOMAIN v.f \cup {"Nope", Unexported} : FieldStep(f)
@@ -87,8 +106,15 @@ Expect(u) ==
   ELSE [k |-> "modelgap"]
 
 \* the reference semantics follows the navigation: a completed leaf renders as itself
-NavTheorem == (v # Failed /\ v.t = "str") => (Res("emit").k = "out" /\ Res("emit").pieces = <<[k |-> "raw", s |-> <<"[">>], [k |-> "esc", s |-> v.s], [k |-> "raw", s |-> <<"]">>]>>)
-FailTheorem == v = Failed => Res("emit").k \in {"err", "unspec"}
-EmitCase == PrintT("CASE " \o ToJson([gen |-> "GenPaths", srcs |-> [u \in Uses |-> Unparse(Prog(u))],
+RevisitRes == LET nm == CHOOSE x \in DOMAIN RevisitPaths : \E h \in {"loop", "assign"} : fam = x \o ":" \o h
+                  how == IF \E x \in DOMAIN RevisitPaths : fam = x \o ":loop" THEN "loop" ELSE "assign"
+              IN [prog |-> RevisitProg(nm, how), r |-> Run(RevisitProg(nm, how), WithHelpers(Data), EmptyScope, "")]
+RevisitTheorem == fam # "walk" => RevisitRes.r.k = "out"
+NavTheorem == (fam = "walk" /\ v # Failed /\ v.t = "str") => (Res("emit").k = "out" /\ Res("emit").pieces = <<[k |-> "raw", s |-> <<"[">>], [k |-> "esc", s |-> v.s], [k |-> "raw", s |-> <<"]">>]>>)
+FailTheorem == (fam = "walk" /\ v = Failed) => Res("emit").k \in {"err", "unspec"}
+EmitCase == IF fam # "walk"
+            THEN PrintT("CASE " \o ToJson([gen |-> "GenPaths", srcs |-> [revisit |-> Unparse(RevisitRes.prog)],
+                                             expects |-> [revisit |-> [k |-> "out", pieces |-> RevisitRes.r.pieces, log |-> <<>>]], steps |-> 3, reached |-> fam]))
+            ELSE PrintT("CASE " \o ToJson([gen |-> "GenPaths", srcs |-> [u \in Uses |-> Unparse(Prog(u))],
                                        expects |-> [u \in Uses |-> Expect(u)], steps |-> n, reached |-> (IF v = Failed THEN "fail" ELSE v.t)]))
 =============================================================================
